@@ -9,7 +9,7 @@ import json, os, re, shutil, subprocess, sys, tempfile
 from concurrent.futures import ThreadPoolExecutor
 
 VERIF = os.path.dirname(os.path.dirname(os.path.abspath(__file__)))
-TWINS = {'m03d': {'C03'}, 'm08h': {'C08'}}
+TWINS = {'m03d': {'C03'}, 'm08h': {'C08'}, 'm09h': {'C09'}}
 
 def load():
     out = []
